@@ -11,9 +11,9 @@ DRIVER = "drv_engine"
 HARNESS_BIN = "engine"
 PARTIAL = [
     "Qbice.CoreFw.core_exec_justified_partial / core_exec_once_partial / core_rounds_exec_once_partial / "
-    "core_external_only_on_demand_or_refresh_partial: proved for all acyclic programs without projection nodes "
-    "(firewalls included); core_requery_executes_nothing and core_refresh_reexecutes_all_externals for all kinds. For "
-    "projection nodes the justification rule (C03_exec_justified_full_statement, with the backward-projection "
+    "core_external_only_on_demand_or_refresh_partial: proved for all acyclic programs in which no projection reads a projection "
+    "(firewalls and projections over firewalls included; the justification has the third disjunct Forced = re-executed by backward projection); core_requery_executes_nothing and core_refresh_reexecutes_all_externals for all kinds. For "
+    "projections over projections the justification rule (C03_exec_justified_full_statement, with the backward-projection "
     "disjunct) is enforced by the harness oracle on the implementation and by equality of executor-invocation "
     "multisets with both models.",
 ]
